@@ -22,6 +22,7 @@ import (
 	"time"
 
 	"github.com/q191201771/lal/pkg/base"
+	"github.com/q191201771/lal/pkg/hls"
 	"github.com/q191201771/lal/pkg/logic"
 	"github.com/q191201771/lal/pkg/rtmp"
 	"github.com/q191201771/lal/pkg/rtsp"
@@ -119,6 +120,9 @@ type scenario struct {
 
 func rtmpThread(w *world.W, e *sched.Exec, name string, script []byte) {
 	c := sched.NewConn(name, script)
+	if strings.HasPrefix(name, "player") {
+		c.AtEOF = e.Yield // a subscriber stays until its peer hangs up: when that happens is a scheduling choice
+	}
 	srv := logic.VerifRtmpServer(w.SM)
 	e.Go(name, func() { rtmp.VerifHandleConn(srv, c) })
 }
@@ -171,6 +175,7 @@ func scenarios() []scenario {
 			srv := logic.VerifRtspServer(w.SM)
 			cp := sched.NewConn("rtsppub", pub)
 			cq := sched.NewConn("rtspplay", play)
+			cq.AtEOF = e.Yield
 			e.Go("rtsp-publisher", func() { rtsp.VerifHandleConn(srv, cp) })
 			e.Go("rtsp-player", func() { rtsp.VerifHandleConn(srv, cq) })
 			var tick uint32
@@ -188,6 +193,26 @@ func scenarios() []scenario {
 				w.SM.StatAllGroup()
 				w.SM.CtrlStopRelayPull("s")
 				w.SM.CtrlAddIpBlacklist(base.ApiCtrlAddIpBlacklistReq{Ip: "10.9.9.9", DurationSec: 1})
+			})
+		}},
+		{Name: "hls-gets+blacklist", Conf: world.Conf{"hls.enable": true, "hls.cleanup_mode": 0}, Build: func(w *world.W, e *sched.Exec) {
+			get := func(name, remote string) {
+				e.Go(name, func() {
+					req, _ := http.NewRequest("GET", "http://h/hls/s.m3u8", nil)
+					req.RequestURI = "/hls/s.m3u8"
+					req.RemoteAddr = remote
+					rec := &hijackW{c: sched.NewConn(name, nil), hdr: http.Header{}}
+					defer func() { recover() }()
+					logic.VerifServeHls(w.SM, rec, req)
+				})
+			}
+			// an entry that is already expired when the requests look it up
+			w.SM.CtrlAddIpBlacklist(base.ApiCtrlAddIpBlacklistReq{Ip: "10.7.7.7", DurationSec: -1})
+			get("hls-get-A", "10.1.1.3:1")
+			get("hls-get-B", "10.1.1.4:1")
+			e.Go("api-blacklist", func() {
+				w.SM.CtrlAddIpBlacklist(base.ApiCtrlAddIpBlacklistReq{Ip: "10.7.7.8", DurationSec: -1})
+				w.SM.CtrlAddIpBlacklist(base.ApiCtrlAddIpBlacklistReq{Ip: "10.1.1.4", DurationSec: 100})
 			})
 		}},
 		{Name: "hls-pub+hls-sub+tick", Conf: world.Conf{"hls.enable": true, "hls.cleanup_mode": 0}, Build: func(w *world.W, e *sched.Exec) {
@@ -452,7 +477,7 @@ func main() {
 	}
 	if len(os.Args) > 1 && os.Args[1] == "child" {
 		lalenv.Quiet()
-		world.SyncQueues()
+		hls.VerifNoSweep = true // (write queues keep lal's default sizes: connection properties are part of what races)
 		raceLog = os.Getenv("C20_RACELOG")
 		var name string
 		var bound, seconds int
@@ -495,9 +520,9 @@ func main() {
 	}
 	r := vk.Start("C20", "model_checking")
 	r.Rule("one execution = one complete schedule of a scenario's threads (session goroutines, API callers, tick, shutdown) chosen at every Lock of one of lal's mutexes; all schedules with at most `bound` preemptions are executed (iterative context bounding), each under the race detector. distinct_nontrivial = distinct thread orders at the scheduling points")
-	r.Assume("scheduling points are the Lock operations of lal's sync.Mutex / sync.RWMutex (rewritten to a schedulable type by vgen); channel operations and atomics are not scheduling points",
+	r.Assume("scheduling points are the Lock / RLock operations of lal's sync.Mutex / sync.RWMutex (rewritten to a schedulable type by vgen; readers share) and the moment a subscriber's peer hangs up; channel operations and atomics are not scheduling points",
 		"the scheduler hands over through plain memory inside //go:norace functions, so the race detector sees only lal's own synchronisation; connections are scripted (input known in advance, never blocking) and lock-free",
-		"asynchronous write queues are off (subscribers are written synchronously by the broadcasting thread); relay goroutines are not part of the scenarios",
+		"asynchronous write queues have lal's default sizes: their writer goroutines take no lock and run unscheduled; relay goroutines are not part of the scenarios",
 		"a goroutine lal starts itself becomes a scheduled thread at its first Lock; before that it runs freely")
 	self, _ := os.Executable()
 	runChild := func(args ...string) (childResult, string, error) {
